@@ -7,6 +7,9 @@ props = [json.loads(l) for l in open('/verif/properties.jsonl')]
 
 # id -> (technique, level text, level note, design ref)
 CHECKS = {
+ "C09": ("bounded exhaustive program enumeration (F-types, full tag and embedding alphabet) with encoding/json itself as oracle through reflect.StructOf twins, plus metamorphic pairs (program, program without its ignored field)",
+         "every struct of every program within 2 / 3 deviations: Exported()/JSONName() equal the keys encoding/json emits (minus gomacro:\"ignore\"), the keys read back from the TypeScript, Dart and validator texts equal that list, and the three outputs are unchanged when an ignored field is removed",
+         "key conflicts (two fields with one JSON name) are outside the alphabet", "DESIGN.md §4 C09"),
  "C17": ("exhaustive enumeration of file sets over a directory alphabet on disk, each loaded by the real analysis.LoadSources (go list); plus the loader-conformance pass binding the in-memory loader of the other checks to the real one",
          "every ordered set of 1..3 files over {., a, ab, abc, ab1, ab2, a/x, ab/x} x {f.go, g.go} x relative/absolute/mixed paths x 5 error cases within the deviation bound (4 quick / complete thorough): package per file, existing ancestor root, errors instead of crashes; 118 (quick) programs of the in-process families loaded through both loaders give byte-identical outputs for analysis + 7 targets",
          "directory names outside the alphabet (spaces, symlinks) not covered", "DESIGN.md §4 C17, §3.4"),
